@@ -34,7 +34,7 @@ CHECKS = {
          "stringified numeric dict keys, duplicate-key collapse, rebuild through the dict constructor); lemmas: conversion round trip is the identity except on the "
          "string 'numpy.inf'. On every run the model's round trip of each fitted state is compared with the object rebuilt by load_carver/load_discretizer, and the "
          "property itself is judged on the implementation: json.dumps succeeds, same transform outcome on training + probe frames, same summary, same JSON again.",
-    ref="DESIGN.md section 8 C06", technique="Lean 4 model of the JSON round trip + correspondence and behavioural comparison of reloaded objects",
+    ref="DESIGN.md section 8 C06", technique="Lean 4 theorems on a model of the JSON round trip (reload_behaviour: same label table and same transform on every frame for dumpable orders; roundTrip_twice) + correspondence (model round trip vs load_discretizer/load_carver state, hypothesis Dumpable evaluated on every real object) and behavioural comparison of reloaded objects",
     note=BASE_NOTE + " Python's json float repr round trip and str(number) are trusted and supplied to the model as a table; the full round-trip identity theorem is not proved yet (partial)."),
  "C07": dict(
     text="Lean theorems: in the model transform is a function of (state, frame) (no state is returned), each column's transform commutes with any selection of rows "
